@@ -1,13 +1,14 @@
 #!/bin/sh
-# tools/iso_setup.sh : an isolated copy of /verif and /repo under /tmp/iso (for trying seeded changes while a long
+# tools/iso_setup.sh : an isolated copy of /verif and /repo under $ISO_DIR (default /tmp/iso) (for trying seeded changes while a long
 # background run uses /repo itself). Registered commands never use it.
 set -e
-mkdir -p /tmp/iso/verif
-[ -d /tmp/iso/repo ] || git -C /repo worktree add -q --detach /tmp/iso/repo HEAD
-git -C /tmp/iso/repo checkout -q --detach "$(git -C /repo rev-parse HEAD)"
+ISO="${ISO_DIR:-/tmp/iso}"
+mkdir -p "$ISO/verif"
+[ -d $ISO/repo ] || git -C /repo worktree add -q --detach $ISO/repo HEAD
+git -C $ISO/repo checkout -q --detach "$(git -C /repo rev-parse HEAD)"
 # sources are synchronised, build output of the copy is kept (incremental rebuilds)
-rsync -a --delete --exclude 'work/' --exclude 'replays/' --exclude 'target/' --exclude 'target-c20/' --exclude '.git/' /verif/ /tmp/iso/verif/
-grep -rl '"/repo"' /tmp/iso/verif/harness/*/Cargo.toml /tmp/iso/verif/harness-loom/Cargo.toml /tmp/iso/verif/harness-miri32/Cargo.toml /tmp/iso/verif/fuzz/Cargo.toml | xargs sed -i 's|"/repo"|"/tmp/iso/repo"|'
-sed -i 's|cd /repo |cd /tmp/iso/repo |g' /tmp/iso/verif/check
-sed -i 's|/repo|/tmp/iso/repo|g; s|cd /verif|cd /tmp/iso/verif|' /tmp/iso/verif/tools/try_mutant.sh
-echo "iso ready: /tmp/iso/verif/tools/try_mutant.sh <patch> <ids>"
+rsync -a --delete --exclude 'work/' --exclude 'replays/' --exclude 'target/' --exclude 'target-c20/' --exclude '.git/' /verif/ $ISO/verif/
+grep -rl '"/repo"' $ISO/verif/harness/*/Cargo.toml $ISO/verif/harness-loom/Cargo.toml $ISO/verif/harness-miri32/Cargo.toml $ISO/verif/fuzz/Cargo.toml | xargs sed -i "s|\"/repo\"|\"$ISO/repo\"|"
+sed -i "s|cd /repo |cd $ISO/repo |g" $ISO/verif/check
+sed -i "s|/repo|$ISO/repo|g; s|cd /verif|cd $ISO/verif|" $ISO/verif/tools/try_mutant.sh
+echo "iso ready: $ISO/verif/tools/try_mutant.sh <patch> <ids>"
